@@ -89,3 +89,11 @@ claim("C05",
       "Table lemmas (exhaustive): every normalizer maps the group onto itself, preserves every metric tensor of the crystal system, and is proper in Sohncke groups. _get_spglib_conventional_system uses exactly spglib's std cell.",
       "spglib's standardisation is an assumed contract (A-SPG); the 'independent symmetry search on the result' is replaced by the table lemmas; occupancy patterns are a bounded family (single letters, letter pairs), positions symbolic.",
       "symbolic execution of the real selection/application code per group + exhaustive table obligations (z3, exact rationals)", "DESIGN.md §3 C05")
+
+claim("C06",
+      "MatID's own part of the normal form: the real selection code of _find_wyckoff_ground_state is executed for all 230 groups on a bounded family of occupancy patterns and on every relabelling of them "
+      "by a tabulated normalizer (= the same crystal with the origin moved / equivalent sites permuted) and with atoms in another order: the resulting (letter, element) multiset is identical and no MatIDError is raised; "
+      "the set of letter permutations of every group is closed under composition (exhaustive table lemma); get_material_id is executed on stub sets: independent of their order, depends on number, letters, elements, sizes and the 2D flag; "
+      "label getters are pure look-ups.",
+      "Invariance of spglib's dataset under re-presentation is assumed (A-SPG); SHA-512 prefix injective (A-HASH); occupancy family bounded (single letters, pairs); last clause of the statement not covered.",
+      "execution of the real selection code over all groups x normalizers + exhaustive table obligations", "DESIGN.md §3 C06")
